@@ -34,6 +34,12 @@ def main():
         print('patch does not apply: ' + p.stderr)
         return 2
     out = {}
+    # evidence files describe the unchanged tree: keep them as they are while the checks run against the patched one
+    import shutil, tempfile
+    evdir = os.path.join(HERE, 'evidence')
+    keep = tempfile.mkdtemp(prefix='evkeep-', dir='/var/tmp')
+    for f in os.listdir(evdir):
+        shutil.copy2(os.path.join(evdir, f), os.path.join(keep, f))
     try:
         for prop in props:
             t0 = time.time()
@@ -54,6 +60,9 @@ def main():
                             pass
     finally:
         sh('git -C /repo checkout -- . && git -C /repo clean -fdq -e target')
+        for f in os.listdir(keep):
+            shutil.copy2(os.path.join(keep, f), os.path.join(evdir, f))
+        shutil.rmtree(keep, ignore_errors=True)
     key = 'checks' if tier == 'quick' else 'checks_thorough'
     meta[key] = out
     meta['detected'] = any(v['exit'] == 1 for v in (meta.get('checks') or {}).values()) or any(v['exit'] == 1 for v in (meta.get('checks_thorough') or {}).values())
